@@ -63,13 +63,15 @@ def run(repo: Repo, chk: Check, thorough: bool = False) -> None:
                'listed' if n in names else f'`class A({n})` is documented as a plain class: {n} is a builtin exception of this interpreter '
                'but is missing from the table is_exception() consults', 'pydoctor/model.py')
     ie = repo.func('pydoctor.model.is_exception')
-    ok = any(isinstance(n, ast.Compare) and isinstance(n.ops[0], ast.In) and '_STD_LIB_EXCEPTIONS' in norm(n) for n in ie.walk()) and \
+    from ..util import scope_nodes
+    ok = any(isinstance(n, ast.Compare) and isinstance(n.ops[0], ast.In) and '_STD_LIB_EXCEPTIONS' in norm(n) for n in scope_nodes(repo, ie)) and \
         any(call_name(c) == 'mro' for c in calls_in(ie))
     chk.ob('R03.1', 'model.is_exception :: consults the table along the MRO', ok, 'for base in cls.mro(True, False): base in _STD_LIB_EXCEPTIONS' if ok else
            'is_exception no longer walks the MRO / the table', ie.loc)
     # the names in the table are bare (`ValueError`): a base written with its module - `class E(builtins.Exception)` expands to `builtins.Exception` -
     # names the same class, so the qualifier has to be taken off (or the table has to list the qualified spelling too) before the lookup
-    qualified = any(isinstance(x, ast.Constant) and isinstance(x.value, str) and x.value.startswith('builtins') for x in ie.walk()) or \
+    from ..util import scope_nodes
+    qualified = any(isinstance(x, ast.Constant) and isinstance(x.value, str) and x.value.startswith('builtins') for x in scope_nodes(repo, ie)) or \
         any(str(n_).startswith('builtins.') for n_ in names)
     chk.ob('R03.1', 'model.is_exception :: a base spelled builtins.<Name> is the builtin exception', qualified,
            'the `builtins.` qualifier is handled' if qualified else
@@ -79,7 +81,12 @@ def run(repo: Repo, chk: Check, thorough: bool = False) -> None:
     # intermediate project class happens to have at that moment, a `break`) makes the answer depend on the order in which the classes are post-processed
     # and misses an exception base that comes after a mix-in
     loops_ie = [lp for lp in ie.walk() if isinstance(lp, ast.For) and isinstance(lp.iter, ast.Call) and call_name(lp.iter) == 'mro']
-    if not loops_ie:
+    # `return any(<table test> for base in cls.mro(...))` searches the whole linearisation by construction
+    quant_ie = [c for c in calls_in(ie) if call_name(c) == 'any' and c.args and isinstance(c.args[0], (ast.GeneratorExp, ast.ListComp)) and
+                any(isinstance(g.iter, ast.Call) and call_name(g.iter) == 'mro' for g in c.args[0].generators)]
+    if quant_ie and not loops_ie:
+        chk.ob('R03.1', 'model.is_exception :: the whole linearisation is searched', True, 'any(... for base in cls.mro(...))', ie.loc)
+    elif not loops_ie:
         raise AnalysisError('R03.1: the loop over cls.mro(...) of is_exception was not found')
     cfie = CFG(ie)
     for lp in loops_ie:
@@ -95,12 +102,25 @@ def run(repo: Repo, chk: Check, thorough: bool = False) -> None:
     # ------------------------------------------------------------------ R03.2
     hf = repo.func(f'{MV}._handleFunctionDef')
     flags = {}
-    for n in hf.walk():
+    # the flags may be computed in a private helper that returns them as a tuple: `a, b, c = self._helper(...)` with `return x, y, z` renames x->a ...
+    rename: Dict[str, str] = {}
+    flag_scope: List[ast.AST] = list(hf.walk())
+    for a_ in hf.walk():
+        if isinstance(a_, ast.Assign) and isinstance(a_.targets[0], ast.Tuple) and isinstance(a_.value, ast.Call):
+            for g_ in repo.funcs.values():
+                if g_.mod is hf.mod and g_.name == call_name(a_.value) and g_.cls is hf.cls:
+                    for r_ in g_.walk():
+                        if isinstance(r_, ast.Return) and isinstance(r_.value, ast.Tuple) and len(r_.value.elts) == len(a_.targets[0].elts):
+                            for x_, t_ in zip(r_.value.elts, a_.targets[0].elts):
+                                if isinstance(x_, ast.Name) and isinstance(t_, ast.Name):
+                                    rename[x_.id] = t_.id
+                    flag_scope += list(g_.walk())
+    for n in flag_scope:
         if isinstance(n, ast.If) and isinstance(n.test, ast.Compare) and isinstance(n.test.comparators[0], ast.List):
             lits = [e.value for e in n.test.comparators[0].elts if isinstance(e, ast.Constant)]
             for st in n.body:
                 if isinstance(st, ast.Assign) and isinstance(st.targets[0], ast.Name) and isinstance(st.value, ast.Constant) and st.value.value is True:
-                    flags[lits[0] if lits else '?'] = st.targets[0].id
+                    flags[lits[0] if lits else '?'] = rename.get(st.targets[0].id, st.targets[0].id)
     kinds = {}
     for n in hf.walk():
         if isinstance(n, ast.Assign) and any(isinstance(t, ast.Attribute) and t.attr == 'kind' for t in n.targets) and 'DocumentableKind' in norm(n.value):
@@ -320,7 +340,7 @@ def run(repo: Repo, chk: Check, thorough: bool = False) -> None:
     gc = repo.func('pydoctor.astutils.NodeVisitor.get_children')
     fields_read = {c.args[1].value for c in calls_in(gc) if call_name(c) == 'getattr' and len(c.args) >= 2 and isinstance(c.args[1], ast.Constant)} | \
         {n.attr for n in gc.walk() if isinstance(n, ast.Attribute) and isinstance(n.value, ast.Name) and n.value.id == gc.params()[1].arg} | \
-        {e.value for n in gc.walk() if isinstance(n, (ast.Tuple, ast.List, ast.Set)) for e in n.elts if isinstance(e, ast.Constant) and isinstance(e.value, str)}
+        {e.value for n in scope_nodes(repo, gc) if isinstance(n, (ast.Tuple, ast.List, ast.Set)) for e in n.elts if isinstance(e, ast.Constant) and isinstance(e.value, str)}
     if 'body' not in fields_read:
         raise AnalysisError('R03.7: NodeVisitor.get_children no longer reads the `body` field')
     additional = {}
@@ -339,8 +359,9 @@ def run(repo: Repo, chk: Check, thorough: bool = False) -> None:
     # `body` / `orelse` are statement LISTS on statements but single EXPRESSIONS on ast.IfExp and ast.Lambda (and the walk reaches those
     # through expression statements): a field value may only be iterated once it is known to be a list
     cfg_gc = CFG(gc)
-    for lp in [n for n in gc.walk() if isinstance(n, ast.For)]:
-        src = lp.iter
+    # (an iteration is a `for` loop or a `yield from`)
+    for lp in [n for n in gc.walk() if isinstance(n, (ast.For, ast.YieldFrom))]:
+        src = lp.iter if isinstance(lp, ast.For) else lp.value
         if isinstance(src, ast.Name):
             vals_ = [n.value for n in gc.walk() if isinstance(n, (ast.Assign, ast.AnnAssign)) and n.value is not None and
                      any(isinstance(t, ast.Name) and t.id == src.id for t in (n.targets if isinstance(n, ast.Assign) else [n.target]))]
@@ -351,7 +372,7 @@ def run(repo: Repo, chk: Check, thorough: bool = False) -> None:
         if not from_field:
             continue
         guarded = any(pol and isinstance(t, ast.Call) and call_name(t) == 'isinstance' and len(t.args) == 2 and norm(t.args[0]) == norm(src) and
-                      'list' in norm(t.args[1]) for t, pol in cfg_gc.dominating_tests(lp))
+                      'list' in norm(t.args[1]) for t, pol in cfg_gc.dominating_tests(cfg_gc.stmt_of(lp)))
         chk.ob('R03.7', f'astutils.NodeVisitor.get_children :: `{norm(src)[:30]}` is iterated only when it is a list', guarded,
                'isinstance(..., list) dominates the loop' if guarded else
                f'`for ... in {norm(src)[:40]}` iterates a field that is a single expression on ast.IfExp / ast.Lambda: a conditional expression used as a '
